@@ -191,6 +191,36 @@ func (c *Ctx) Dep(path string) *packages.Package { return c.All[path] }
 func (c *Ctx) AllFunctions() map[*ssa.Function]bool {
 	if c.allFns == nil {
 		c.allFns = ssautil.AllFunctions(c.Prog)
+		// ssautil does not enumerate the methods of generic named types (they have no run-time
+		// method set until instantiated): add their generic bodies so that rules see them
+		for _, p := range c.Pkgs {
+			if p.Types == nil {
+				continue
+			}
+			scope := p.Types.Scope()
+			for _, name := range scope.Names() {
+				tn, ok := scope.Lookup(name).(*types.TypeName)
+				if !ok {
+					continue
+				}
+				named, ok := tn.Type().(*types.Named)
+				if !ok || named.TypeParams().Len() == 0 {
+					continue
+				}
+				for i := 0; i < named.NumMethods(); i++ {
+					if fn := c.Prog.FuncValue(named.Method(i)); fn != nil {
+						var add func(f *ssa.Function)
+						add = func(f *ssa.Function) {
+							c.allFns[f] = true
+							for _, a := range f.AnonFuncs {
+								add(a)
+							}
+						}
+						add(fn)
+					}
+				}
+			}
+		}
 	}
 	return c.allFns
 }
